@@ -70,3 +70,29 @@ def zero_gram_is_top(plain: bytes, keylen: int) -> bool:
     if top[0][0] != zero:
         return False
     return len(top) == 1 or top[1][1] < top[0][1]
+
+
+def top_grams(plain: bytes, keylen: int, n: int = 3, key: bytes = b"\x00"):
+    """The n most frequent aligned keylen-grams with their counts, counted the way a key search has to: on the MASKED
+    bytes (plain XOR key stream), the last partial gram zero-filled, and reported with the key removed again (so the
+    all-zero gram stands for 'this block is padding')."""
+    import collections
+
+    masked = _x(plain, keystream(key, len(plain)))
+    padded = masked + b"\x00" * (-len(masked) % keylen)
+    ks = keystream(key, keylen) if keylen % len(key) == 0 else None
+    c = collections.Counter()
+    for i in range(0, len(padded), keylen):
+        g = padded[i : i + keylen]
+        c[_x(g, ks) if ks is not None else g] += 1
+    return c.most_common(n)
+
+
+def zero_gram_findable(plain: bytes, keylen: int, key: bytes = b"\x00") -> bool:
+    """The padding gram is the most frequent one, or shares first place with exactly one other gram (the two most
+    common grams are both tried as keys)."""
+    top = top_grams(plain, keylen, 3, key)
+    zero = b"\x00" * keylen
+    best = top[0][1]
+    tied = [g for g, cnt in top if cnt == best]
+    return zero in tied and len(tied) <= 2
